@@ -33,7 +33,8 @@ def write(prop, tier, seed, level, coverage, assumptions, wall_s, violations, ex
     }
     if extra:
         ev.update(jsonable(extra))
-    d = os.path.join(VERIF, 'evidence')
+    # evidence/ describes runs against /repo itself; a run pointed at another checkout (VERIF_REPO, used for seeded changes) writes next to it
+    d = os.path.join(VERIF, 'evidence' if REPO == '/repo' else 'evidence-other-trees')
     os.makedirs(d, exist_ok=True)
     path = os.path.join(d, prop + '.json')
     tmp = path + '.tmp%d' % os.getpid()
